@@ -449,6 +449,101 @@ func TestC10(t *testing.T) {
 		}
 		run.Eval("conc|" + pc.Sig)
 	}
+	c10Repeat(run, r, created)
+}
+
+// c10Repeat: one Filter node is handed the very same *Event more than once - a node shared by several pipelines
+// gets the same event once per pipeline, and a sender may reuse its Event struct for the next payload. Every call
+// works on a private copy of the event as it is *now*: what a later node did to an earlier forwarded copy (stored a
+// format, changed a value) does not show in the next one, and a new payload set into the same Event is what comes out.
+func c10Repeat(run *rt.Run, r *rt.Rand, created time.Time) {
+	n := run.N(400, 20000)
+	for i := 0; i < n && !run.Stop(); i++ {
+		cfg := encCfg{Wrapper: "present"}
+		seedA, seedB := r.Uint64(), r.Uint64()
+		pa, pb := genPayload(seedA, cfg), genPayload(seedB, cfg)
+		twinA, twinB := genPayload(seedA, cfg), genPayload(seedB, cfg)
+		f := buildFilter(cfg)
+		ev := &eventlogger.Event{Type: "t", CreatedAt: created, Formatted: map[string][]byte{"pre": []byte("formatted")}, Payload: pa.Payload}
+		wit := func(extra string) any {
+			return map[string]any{"seed_a": seedA, "seed_b": seedB, "shape_a": pa.Sig, "shape_b": pb.Sig, "detail": extra}
+		}
+		r1 := callProcess(f, ev)
+		if r1.Panic != "" || r1.Err != nil || r1.Out == nil {
+			run.Add("repeat_first_call_refused", 1)
+			continue
+		}
+		if r1.Out == ev {
+			// a nil/zero payload is forwarded unchanged (the very event): nothing private to compare
+			run.Add("repeat_same_event_forwarded", 1)
+			continue
+		}
+		// a later node of the first pipeline works on what it was forwarded
+		r1.Out.FormattedAs("json", []byte("{\"stored\":\"downstream\"}"))
+		scramble(reflect.ValueOf(r1.Out.Payload), 0)
+		r2 := callProcess(f, ev)
+		run.Eval("repeat|" + pa.Sig)
+		if r2.Panic != "" || r2.Err != nil || r2.Out == nil {
+			run.Violation("shape:repeat-refused", fmt.Sprintf("the same event is refused when the node is handed it a second time: err=%v panic=%s", r2.Err, r2.Panic), wit(""))
+			continue
+		}
+		if _, ok := r2.Out.Formatted["json"]; ok {
+			run.Violation("shape:repeat-not-private", "the event forwarded for the second call carries a format a later node stored on the copy forwarded for the first call", wit(""))
+			continue
+		}
+		if reflect.TypeOf(r2.Out.Payload) != reflect.TypeOf(twinA.Payload) {
+			run.Violation("shape:type-changed", fmt.Sprintf("second call on the same event: output payload has type %T, input %T", r2.Out.Payload, twinA.Payload), wit(""))
+			continue
+		}
+		if a, b := renderS(r2.Out.Payload, true), renderS(twinA.Payload, true); a != b {
+			run.Violation("shape:repeat-not-private", "the event forwarded for the second call does not have the shape of the input: it shows what was done to the copy forwarded for the first call", wit("input shape: "+trunc(b, 800)+" | output shape: "+trunc(a, 800)))
+			continue
+		}
+		bad := false
+		outV := reflect.ValueOf(r2.Out.Payload)
+		for _, l := range pa.Leaves {
+			if l.Exp != Keep || l.Nil {
+				continue
+			}
+			lv, err := walk(outV, l.Path)
+			if err != nil {
+				continue
+			}
+			if got, ok := leafValue(lv); !ok || got != l.Canary {
+				run.Violation("shape:public-not-preserved", fmt.Sprintf("second call on the same event: public value %s came out as %.40q, original %q", pathString(l.Path), got, l.Canary), wit(""))
+				bad = true
+				break
+			}
+		}
+		if bad {
+			continue
+		}
+		if renderS(ev.Payload, false) != renderS(twinA.Payload, false) {
+			run.Violation("shape:input-modified:repeat", "Process modified the payload it was given (second call on the same event)", wit(""))
+			continue
+		}
+		// the sender reuses its Event for the next payload
+		ev.Payload = pb.Payload
+		r3 := callProcess(f, ev)
+		if r3.Panic != "" || r3.Err != nil || r3.Out == nil {
+			run.Add("repeat_reuse_refused", 1)
+			continue
+		}
+		if reflect.TypeOf(r3.Out.Payload) != reflect.TypeOf(twinB.Payload) {
+			run.Violation("shape:type-changed", fmt.Sprintf("an Event struct reused for the next payload: output payload has type %T, input %T", r3.Out.Payload, twinB.Payload), wit(""))
+			continue
+		}
+		if a, b := renderS(r3.Out.Payload, true), renderS(twinB.Payload, true); a != b {
+			run.Violation("shape:shape-changed:reused-event", "an Event struct reused for the next payload: the forwarded payload does not have the shape of the payload given", wit("input shape: "+trunc(b, 800)+" | output shape: "+trunc(a, 800)))
+		}
+	}
+}
+
+func trunc(s string, n int) string {
+	if len(s) > n {
+		return s[:n] + "..."
+	}
+	return s
 }
 
 // sameNonStrings compares two structpb values: same kinds everywhere, equal numbers / bools / nulls, same list
